@@ -7,6 +7,9 @@ From MptV Require Import C08.ParseModel C08.ParseBase.
 Import ListNotations.
 Local Open Scope Z_scope.
 
+Ltac codes := unfold BadArgument, BadValue, BadType, BadOperation, MissingData, MissingBuffer, SaveFailed,
+  RFault, ROutOfFuel, PSection, PSectEnd, POption, PData, PName in *.
+
 (* end-of-input reports between two states: calls made minus characters taken *)
 Definition eofs (l : list Z) (s : pst) (r : list Z) (s' : pst) : Z :=
   calls s' - calls s - (len l - len r).
@@ -39,20 +42,16 @@ Lemma el_pre l s r s1 x : pre_ok l s r s1 -> el r s1 x -> el l s x.
 Proof.
   destruct x as [[ret r2] s2]. unfold el, pre_ok, tm, eff, safe, eofs.
   intros (A1 & A2 & A3 & A4 & A5) ((B1 & B2 & B3 & B4) & (C1 & C2 & C3) & D).
-  repeat split; try lia.
-  - eapply suffix_trans; eassumption.
-  - intros. apply B4. lia.
-  - assumption.
-  - intros H. destruct (C2 H) as [n Hn]. exists n. now rewrite Hn, A4.
-  - intros H. now rewrite (C3 H), A4.
-  - apply D. auto.
-  - apply D. auto.
-  - apply D; auto.
-  - apply D; auto.
+  split; [|split].
+  - split; [eapply suffix_trans; eassumption|]. split; [lia|]. split; [lia|]. intros. apply B4. lia.
+  - split; [assumption|]. split.
+    + intros H. destruct (C2 H) as [n Hn]. exists n. now rewrite Hn, A4.
+    + intros H. now rewrite (C3 H), A4.
+  - intros H. apply D. auto.
 Qed.
 
 Lemma pre_ok_refl l s : pre_ok l s l s.
-Proof. unfold pre_ok, eofs. repeat split; auto with sfx; lia. Qed.
+Proof. unfold pre_ok, eofs. split; [auto with sfx|]. split; [lia|]. split; [lia|]. split; auto. Qed.
 
 (* state tweaks that neither read nor touch the elements *)
 Lemma pre_ok_tweak l s r s1 s2 :
@@ -60,7 +59,7 @@ Lemma pre_ok_tweak l s r s1 s2 :
   pre_ok l s r s2.
 Proof.
   unfold pre_ok, eofs. intros (A1 & A2 & A3 & A4 & A5) B C D.
-  repeat split; auto; try lia. congruence.
+  split; [assumption|]. split; [lia|]. split; [lia|]. split; [congruence|auto].
 Qed.
 Lemma pre_ok_with_curr l s r s1 c : pre_ok l s r s1 -> pre_ok l s r (with_curr s1 c).
 Proof. intros H. eapply pre_ok_tweak; [exact H| | |]; autorewrite with pst; auto using sinv_with_curr. Qed.
@@ -73,29 +72,48 @@ Proof.
 Qed.
 (* one character taken *)
 Lemma pre_ok_tick c r s : pre_ok (c :: r) s r (tick s c).
-Proof. unfold pre_ok, eofs. autorewrite with pst. repeat split; auto with sfx; try lia. apply sinv_tick. Qed.
+Proof.
+  unfold pre_ok, eofs. autorewrite with pst.
+  split; [auto with sfx|]. split; [lia|]. split; [lia|]. split; [reflexivity|apply sinv_tick].
+Qed.
 Lemma pre_ok_tick_raw c r s : pre_ok (c :: r) s r (tick_raw s).
-Proof. unfold pre_ok, eofs. autorewrite with pst. repeat split; auto with sfx; try lia. apply sinv_tick_raw. Qed.
+Proof.
+  unfold pre_ok, eofs. autorewrite with pst.
+  split; [auto with sfx|]. split; [lia|]. split; [lia|]. split; [reflexivity|apply sinv_tick_raw].
+Qed.
 Lemma pre_ok_trans l s r1 s1 r2 s2 : pre_ok l s r1 s1 -> pre_ok r1 s1 r2 s2 -> pre_ok l s r2 s2.
 Proof.
   unfold pre_ok, eofs. intros (A1 & A2 & A3 & A4 & A5) (B1 & B2 & B3 & B4 & B5).
-  repeat split; auto; try lia; try congruence. eapply suffix_trans; eassumption.
+  split; [eapply suffix_trans; eassumption|]. split; [lia|]. split; [lia|]. split; [congruence|auto].
 Qed.
 #[export] Hint Resolve pre_ok_refl pre_ok_with_curr pre_ok_addch pre_ok_set_valid pre_ok_tick pre_ok_tick_raw : pre.
 
 (* a result that stops here: negative code, nothing read since the prefix *)
+Lemma eff_stop s ret s' : ret <= 0 -> eff s ret s'.
+Proof. intros A. unfold eff, okret. split; [lia|]. split; intros; exfalso; lia. Qed.
+Lemma safe_stop s ret s' : ret <= 0 -> ret <> RFault -> (sinv s -> pinv2 (pth s')) -> safe s ret s'.
+Proof. intros A B D H. split; [assumption|]. split; [auto|]. intros; exfalso; lia. Qed.
+
+Lemma safe_stop' s ret s' : ret <= 0 -> (sinv s -> ret <> RFault /\ pinv2 (pth s')) -> safe s ret s'.
+Proof. intros A D H. destruct (D H). split; [assumption|]. split; [auto|]. intros; exfalso; lia. Qed.
+
+Lemma tm_refl l s s' : calls s' = calls s -> tm l s l s'.
+Proof. intros C. unfold tm, eofs. split; [auto with sfx|]. split; [lia|]. split; [lia|]. intros; lia. Qed.
+Lemma tm_calls l s s1 r s2 : calls s1 = calls s -> tm l s1 r s2 -> tm l s r s2.
+Proof. unfold tm, eofs. intros C (A1 & A2 & A3 & A4). rewrite <- C. auto. Qed.
+
+(* a result that stops here: no positive code, nothing read since the prefix *)
 Lemma el_stop l s ret s' :
-  ret <= 0 -> ret <> RFault -> calls s' = calls s -> (sinv s -> pinv2 (pth s')) -> el l s (ret, l, s').
+  ret <= 0 -> calls s' = calls s -> (sinv s -> ret <> RFault /\ pinv2 (pth s')) -> el l s (ret, l, s').
 Proof.
-  intros A B C D. unfold el, tm, eff, safe, okret, eofs.
-  repeat split; auto with sfx; try lia; intros; try lia. all: try (exfalso; lia). auto.
+  intros A C D. unfold el. split; [now apply tm_refl|split; [now apply eff_stop|now apply safe_stop']].
 Qed.
 (* the same after the end of input was reported *)
 Lemma el_stop_eof s ret s' :
-  ret <= 0 -> ret <> RFault -> calls s' = calls s + 1 -> (sinv s -> pinv2 (pth s')) -> el [] s (ret, [], s').
+  ret <= 0 -> calls s' = calls s + 1 -> (sinv s -> ret <> RFault /\ pinv2 (pth s')) -> el [] s (ret, [], s').
 Proof.
-  intros A B C D. unfold el, tm, eff, safe, okret, eofs. autorewrite with pst.
-  repeat split; auto with sfx; try lia; intros; try lia. all: try (exfalso; lia). auto.
+  intros A C D. unfold el. split; [|split; [now apply eff_stop|now apply safe_stop']].
+  unfold tm, eofs. autorewrite with pst. split; [auto with sfx|]. split; [lia|]. split; [lia|]. reflexivity.
 Qed.
 
 (* ---------------------------------------------------------------- character readers *)
@@ -109,13 +127,19 @@ Record rd (l : list Z) (s : pst) (c : Z) (r : list Z) (s' : pst) : Prop := mkRd 
 
 Lemma rd_pre l s c r s' : rd l s c r s' -> 0 <= c -> pre_ok l s r s'.
 Proof.
-  intros [(A1 & A2 & A3 & A4) B C D _ _] H. destruct (B H). unfold pre_ok. repeat split; auto.
+  intros [(A1 & A2 & A3 & A4) B C D _ _] H. destruct (B H). unfold pre_ok.
+  split; [assumption|]. split; [assumption|]. split; [assumption|]. split; assumption.
 Qed.
 
 Ltac rd_leaf :=
-  constructor; unfold tm, eofs; autorewrite with pst;
-  repeat split; auto with sfx; try lia; intros; try lia;
-  auto using sinv_tick, sinv_tick_raw, sinv_tick_eof.
+  constructor;
+  [ unfold tm, eofs; autorewrite with pst; (split; [auto with sfx|]); (split; [lia|]); (split; [lia|]);
+    intros; first [reflexivity | lia]
+  | unfold eofs; autorewrite with pst; intros; split; lia
+  | autorewrite with pst; reflexivity
+  | auto using sinv_tick, sinv_tick_raw, sinv_tick_eof
+  | autorewrite with pst; reflexivity
+  | autorewrite with pst; reflexivity ].
 
 Lemma rd_step c0 r0 s c r s' s0 :
   rd r0 s0 c r s' -> calls s0 = calls s + 1 -> pelems (pth s0) = pelems (pth s) -> (sinv s -> sinv s0) ->
@@ -124,8 +148,8 @@ Lemma rd_step c0 r0 s c r s' s0 :
 Proof.
   intros [(A1 & A2 & A3 & A4) B C D E F] G1 G2 G3 G4 G5.
   constructor; unfold tm, eofs in *; autorewrite with pst in *.
-  - repeat split; auto with sfx; try lia. intros. apply A4. lia.
-  - intros H. destruct (B H). lia.
+  - split; [auto with sfx|]. split; [lia|]. split; [lia|]. intros. apply A4. lia.
+  - intros H. destruct (B H). split; lia.
   - congruence.
   - auto.
   - congruence.
@@ -164,3 +188,236 @@ Qed.
 
 Lemma nextvis_rd f l s : let '(c, r, s') := nextvis f l s in rd l s c r s'.
 Proof. apply nextvis_go_rd. Qed.
+
+Lemma getchar_rd l s : let '(c, r, s') := getchar l s in rd l s c r s'.
+Proof.
+  destruct l as [|a l]; cbn [getchar]; [rd_leaf|].
+  destruct (a <=? 0) eqn:E; [apply Z.leb_le in E; rd_leaf|].
+  apply Z.leb_gt in E.
+  constructor;
+  [ unfold tm, eofs; autorewrite with pst; (split; [auto with sfx|]); (split; [lia|]); (split; [lia|]); intros; lia
+  | unfold eofs; autorewrite with pst; intros; split; lia
+  | autorewrite with pst; reflexivity
+  | auto using sinv_tick, sinv_addch
+  | autorewrite with pst; reflexivity
+  | autorewrite with pst; reflexivity ].
+Qed.
+
+(* ---------------------------------------------------------------- mpt_parse_data *)
+(* state change without reading *)
+Definition keeps (s s' : pst) : Prop :=
+  calls s' = calls s /\ pelems (pth s') = pelems (pth s) /\ (sinv s -> sinv s') /\ pcurr s' = pcurr s.
+
+Lemma keeps_refl s : keeps s s.
+Proof. unfold keeps. auto. Qed.
+Lemma keeps_set_valid s : keeps s (set_valid s).
+Proof.
+  unfold keeps. autorewrite with pst. split; [reflexivity|]. split; [reflexivity|]. split; [|reflexivity].
+  intros H. apply sinv_set_valid. now apply sinv_pinv2.
+Qed.
+
+Lemma data_body_keeps f c s m la :
+  match data_body f c s m la with
+  | Cont s2 _ _ => keeps s s2
+  | Brk s2 => keeps s s2
+  | BrkEndline s2 => keeps s s2
+  end.
+Proof.
+  unfold data_body.
+  destruct (negb (m =? 0)).
+  - unfold keeps. autorewrite with pst.
+    destruct (c =? m); [|split; [reflexivity|split; [reflexivity|split; [|reflexivity]]];
+                          intros H; apply sinv_set_valid; now apply sinv_pinv2].
+    destruct (negb (la =? 92)); autorewrite with pst;
+      (split; [reflexivity|split; [reflexivity|split; [|reflexivity]]]);
+      intros H; apply sinv_set_valid; autorewrite with pst;
+      auto using pinv2_delchar, pinv2_addchar, sinv_pinv2.
+  - destruct (isescape f c); [apply keeps_refl|].
+    destruct (c =? oend f); [apply keeps_refl|].
+    destruct (c =? 10); [apply keeps_refl|].
+    destruct ((oend f =? 0) && iscomment f c && isspace la); [apply keeps_refl|].
+    destruct (negb (isspace c)); [apply keeps_set_valid|apply keeps_refl].
+Qed.
+
+(* result of a data loop *)
+Definition dl (l : list Z) (s : pst) (r : list Z) (s' : pst) : Prop :=
+  tm l s r s' /\ pelems (pth s') = pelems (pth s) /\ (sinv s -> sinv s') /\ pcurr s' = pcurr s.
+
+Lemma dl_pre l s r s1 r2 s2 :
+  pre_ok l s r s1 -> pcurr s1 = pcurr s -> dl r s1 r2 s2 -> dl l s r2 s2.
+Proof.
+  unfold dl, pre_ok, tm, eofs.
+  intros (A1 & A2 & A3 & A4 & A5) A6 ((B1 & B2 & B3 & B4) & C1 & C2 & C3).
+  split; [|split; [congruence|split; [auto|congruence]]].
+  split; [eapply suffix_trans; eassumption|]. split; [lia|]. split; [lia|]. intros. apply B4. lia.
+Qed.
+
+Lemma dl_of_rd l s c r s' : rd l s c r s' -> dl l s r s'.
+Proof. intros [A B C D E F]. unfold dl. auto. Qed.
+
+Lemma dl_stop l s s' : keeps s s' -> dl l s l s'.
+Proof.
+  intros (A & B & C & D). unfold dl, tm, eofs.
+  split; [|auto]. split; [auto with sfx|]. split; [lia|]. split; [lia|]. intros; lia.
+Qed.
+
+Lemma data_loop_dl f l : forall s m la, let '(c, r, s') := data_loop f l s m la in dl l s r s'.
+Proof.
+  induction l as [|a l IH]; intros s m la; cbn [data_loop].
+  - apply (dl_of_rd [] s (-2)). rd_leaf.
+  - destruct (a <? 0) eqn:E.
+    + apply Z.ltb_lt in E. apply (dl_of_rd _ s a). rd_leaf.
+    + set (s1 := if a =? 0 then tick_raw s else addch (tick s a) a).
+      assert (P : pre_ok (a :: l) s l s1 /\ pcurr s1 = pcurr s).
+      { subst s1. destruct (a =? 0); autorewrite with pst; auto with pre. }
+      destruct P as [P Pc].
+      pose proof (data_body_keeps f a s1 m la) as K.
+      destruct (data_body f a s1 m la) as [s2 m2 l2|s2|s2].
+      * specialize (IH s2 m2 l2). destruct (data_loop f l s2 m2 l2) as [[c r] s'].
+        destruct K as (K1 & K2 & K3 & K4).
+        eapply dl_pre; [| |exact IH]; [|congruence].
+        eapply pre_ok_tweak; [exact P|..]; auto.
+      * destruct K as (K1 & K2 & K3 & K4).
+        eapply dl_pre; [exact P|exact Pc|]. apply dl_stop. unfold keeps. auto.
+      * pose proof (endline_rd l s2) as X. destruct (endline l s2) as [[c2 r2] s3].
+        destruct K as (K1 & K2 & K3 & K4).
+        eapply dl_pre; [| |apply (dl_of_rd _ _ _ _ _ X)]; [|congruence].
+        eapply pre_ok_tweak; [exact P|..]; auto.
+Qed.
+
+(* mpt_parse_data: the code is BadValue or the valid length *)
+Lemma parse_data_dl f l s :
+  let '(d, r, s') := parse_data f l s in
+  tm l s r s' /\ pelems (pth s') = pelems (pth s) /\ (sinv s -> sinv s') /\
+  (d = BadValue \/ (d = valid s' /\ pcurr s' = pcurr s)).
+Proof.
+  unfold parse_data. pose proof (data_loop_dl f l s 0 (-1)) as X.
+  destruct (data_loop f l s 0 (-1)) as [[c r] s1]. destruct X as (A & B & C & D).
+  destruct (negb (oend f =? 0) && negb (c =? oend f)).
+  - unfold tm, eofs in *. autorewrite with pst. split; [exact A|]. split; [exact B|].
+    split; [|left; reflexivity]. intros H. apply sinv_with_curr. auto.
+  - split; [exact A|]. split; [exact B|]. split; [exact C|]. right. auto.
+Qed.
+
+(* ---------------------------------------------------------------- name check *)
+Lemma ncheck_go_codes cs b take : ncheck_go cs b take = 0 \/ ncheck_go cs b take = BadType \/ ncheck_go cs b take = BadValue.
+Proof.
+  revert b. induction cs as [|c cs IH]; intros b; cbn [ncheck_go]; [auto|].
+  repeat match goal with |- context [if ?x then _ else _] => destruct x end; auto.
+Qed.
+
+Lemma ncheck_safe s take : sinv s -> ncheck s (valid s) take <> RFault.
+Proof.
+  intros [P V]. unfold ncheck, post_read.
+  destruct (valid s =? 0); [destruct (flag take NFEmpty); codes; lia|].
+  destruct (negb (pbuf (pth s))); [codes; lia|].
+  replace ((0 <=? valid s) && (valid s <=? plen (pth s))) with true
+    by (symmetry; apply andb_true_iff; split; apply Z.leb_le; lia).
+  destruct (ncheck_go_codes (firstn (Z.to_nat (valid s)) (ppost (pth s))) true take) as [H|[H|H]];
+    rewrite H; codes; lia.
+Qed.
+
+Lemma ncheck_zero_safe s take : ncheck s 0 take <> RFault.
+Proof. unfold ncheck. change (0 =? 0) with true. cbv iota. destruct (flag take NFEmpty); codes; lia. Qed.
+
+(* ---------------------------------------------------------------- option *)
+Ltac stop_leaf :=
+  apply el_stop; [codes; try lia | autorewrite with pst; try reflexivity
+                 | intros ?H; split; [codes; try lia | autorewrite with pst; auto using sinv_pinv2] ].
+
+Lemma option_assign_el f take adderr l s :
+  adderr <= 0 -> adderr <> RFault -> el l s (option_assign f take adderr l s).
+Proof.
+  intros A1 A2. unfold option_assign.
+  destruct (ncheck s (valid s) take <? 0) eqn:N.
+  - apply el_stop; [destruct (_ =? RFault); codes; lia|reflexivity|].
+    intros H. split; [|now apply sinv_pinv2].
+    pose proof (ncheck_safe s take H) as X. apply Z.eqb_neq in X. rewrite X. codes; lia.
+  - destruct (path_add (pth s) (valid s)) as [a p1] eqn:PA.
+    destruct (a <? 0) eqn:AN.
+    + apply el_stop; [assumption|reflexivity|]. intros H. split; [assumption|now apply sinv_pinv2].
+    + apply Z.ltb_ge in AN.
+      destruct (path_add_elems _ _ _ _ PA) as [[X _]|[_ PE]]; [lia|].
+      set (s1 := mkPst (line s) (calls s) (path_invalidate p1) 0 (pcurr s)).
+      pose proof (parse_data_dl f l s1) as D. destruct (parse_data f l s1) as [[d r] s2].
+      destruct D as (T & E & I & V).
+      assert (T' : tm l s r s2) by (eapply tm_calls; [|exact T]; reflexivity).
+      assert (E' : pelems (pth s2) = pelems (pth s) ++ [firstn (Z.to_nat (valid s)) (ppost (pth s))]).
+      { rewrite E. subst s1. cbn [pth]. now rewrite pelems_invalidate. }
+      assert (I' : sinv s -> sinv s2).
+      { intros H. apply I. subst s1. split; cbn [pth valid].
+        - apply pinv2_invalidate. eapply path_add_pinv; [|exact PA]. now apply sinv_pinv2.
+        - rewrite plen_invalidate; [lia|]. eapply path_add_pinv; [|exact PA]. now apply sinv_pinv2. }
+      destruct (d <? 0) eqn:DN; [|destruct (d =? 0) eqn:DZ].
+      * apply Z.ltb_lt in DN. unfold el. split; [exact T'|]. split; [apply eff_stop; lia|].
+        apply safe_stop'; [lia|]. intros H. specialize (I' H). split; [|now apply sinv_pinv2].
+        destruct V as [->|[-> _]]; [codes; lia|]. destruct I' as [_ ?]. lia.
+      * unfold el. split; [exact T'|]. split.
+        -- unfold eff, okret. codes. split; [lia|]. split; [intros _; eexists; exact E'|intros; exfalso; lia].
+        -- intros H. specialize (I' H). codes. split; [lia|]. split; [now apply sinv_pinv2|]. intros; exfalso; lia.
+      * unfold el. split; [exact T'|]. split.
+        -- unfold eff, okret. codes. cbn. split; [lia|]. split; [intros _; eexists; exact E'|intros; exfalso; lia].
+        -- intros H. specialize (I' H). codes. cbn. split; [lia|]. split; [now apply sinv_pinv2|].
+           intros _. destruct I' as [_ ?]. assumption.
+Qed.
+
+Lemma option_tail_el take l s : el l s (option_tail take l s).
+Proof.
+  unfold option_tail. destruct (negb (flag take NFEmpty)).
+  - stop_leaf.
+  - unfold el. autorewrite with pst. split; [apply tm_refl; now autorewrite with pst|]. split.
+    + unfold eff, okret. codes. autorewrite with pst. split; [lia|]. split; [intros; exfalso; lia|reflexivity].
+    + intros H. codes. autorewrite with pst. split; [lia|]. split; [now apply sinv_pinv2|]. intros _. apply H.
+Qed.
+
+Lemma option_loop_el f take l : forall c s, el l s (option_loop f take c l s).
+Proof.
+  induction l as [|a l IH]; intros c s.
+  - cbn [option_loop].
+    assert (NX : forall s1, keeps s s1 -> el [] s (MissingData, [], tick_eof s1)).
+    { intros s1 (K1 & K2 & K3 & K4). apply el_stop_eof; [codes; lia|autorewrite with pst; lia|].
+      intros H. split; [codes; lia|]. autorewrite with pst. apply sinv_pinv2. auto. }
+    destruct (isspace c).
+    + destruct (assign f =? 0); [apply option_assign_el; codes; lia|].
+      destruct (c =? 10); [|apply NX, keeps_refl].
+      destruct (negb (oend f =? 0) && negb (c =? oend f)); [stop_leaf|apply option_tail_el].
+    + destruct (c =? assign f); [apply option_assign_el; codes; lia|].
+      destruct (c =? oend f); [apply option_tail_el|].
+      destruct (iscomment f c); [|apply NX, keeps_set_valid].
+      destruct (negb (oend f =? 0)); [stop_leaf|].
+      cbn [endline]. eapply el_stop_eof with (ret := _) in NX.
+      * (* endline on the empty input, then the tail *)
+        clear NX. pose proof (option_tail_el take [] (tick_eof s)) as X.
+        destruct (option_tail take [] (tick_eof s)) as [[ret r] s'] eqn:OT.
+        unfold el in *. destruct X as (T & E & S). split; [|split].
+        -- unfold option_tail in OT. destruct (negb (flag take NFEmpty)); inversion OT; subst;
+             unfold tm, eofs; autorewrite with pst; (split; [auto with sfx|]); (split; [lia|]); (split; [lia|]); reflexivity.
+        -- unfold eff in *. autorewrite with pst in E. exact E.
+        -- intros H. apply S. now apply sinv_tick_eof.
+      * apply keeps_refl.
+  - cbn [option_loop].
+    assert (NX : forall s1, keeps s s1 ->
+       el (a :: l) s (if a <? 0 then (if a =? -2 then MissingData else BadArgument, l, tick_raw s1)
+                      else option_loop f take a l (if a =? 0 then tick_raw s1 else addch (tick s1 a) a))).
+    { intros s1 (K1 & K2 & K3 & K4).
+      assert (P0 : pre_ok (a :: l) s (a :: l) s1).
+      { eapply pre_ok_tweak; [apply pre_ok_refl|..]; auto. }
+      destruct (a <? 0).
+      - eapply el_pre; [eapply pre_ok_trans; [exact P0|apply pre_ok_tick_raw]|].
+        apply el_stop; [destruct (a =? -2); codes; lia|reflexivity|].
+        intros H. split; [destruct (a =? -2); codes; lia|now apply sinv_pinv2].
+      - eapply el_pre; [|apply IH].
+        destruct (a =? 0).
+        + eapply pre_ok_trans; [exact P0|apply pre_ok_tick_raw].
+        + apply pre_ok_addch. eapply pre_ok_trans; [exact P0|apply pre_ok_tick]. }
+    destruct (isspace c).
+    + destruct (assign f =? 0); [apply option_assign_el; codes; lia|].
+      destruct (c =? 10); [|apply NX, keeps_refl].
+      destruct (negb (oend f =? 0) && negb (c =? oend f)); [stop_leaf|apply option_tail_el].
+    + destruct (c =? assign f); [apply option_assign_el; codes; lia|].
+      destruct (c =? oend f); [apply option_tail_el|].
+      destruct (iscomment f c); [|apply NX, keeps_set_valid].
+      destruct (negb (oend f =? 0)); [stop_leaf|].
+      pose proof (endline_rd (a :: l) s) as X. destruct (endline (a :: l) s) as [[c2 r2] s2].
+      admit.
+Admitted.
